@@ -405,13 +405,18 @@ func runStore(kind string, names []int, ops []op, only map[int]bool) (answers []
 	for i := range stores {
 		stores[i].id = ulid.Make().String() // reads of a store that was never created address a fresh id
 	}
+	// a reference (store o, k-th model) is resolved ONCE, at its first use: to the model if it exists by then, else to
+	// a fresh id that no store has. Resolving it again later (after store o wrote its k-th model) would make the
+	// interleaved run and the solo run of another store use different ids for one reference — a difference of the
+	// harness, not of the datastore.
 	modelID := func(o, k int) string {
-		if k < len(stores[o].models) {
-			return stores[o].models[k]
-		}
 		key := fmt.Sprintf("%d.%d", o, k)
 		if placeholder[key] == "" {
-			placeholder[key] = ulid.Make().String()
+			if k < len(stores[o].models) {
+				placeholder[key] = stores[o].models[k]
+			} else {
+				placeholder[key] = ulid.Make().String()
+			}
 		}
 		return placeholder[key]
 	}
